@@ -195,17 +195,20 @@ class SyncWorker(base.Worker):
         except OSError:
             # pass to next try-except level
             util.reraise(*sys.exc_info())
-        except Exception:
+        except BaseException as e:
             if resp and resp.headers_sent:
                 # If the requests have already been sent, we should close the
-                # connection to indicate the error.
+                # connection to indicate the error.  This includes SystemExit
+                # raised by a signal handler (quit, abort): nothing else may
+                # be written into a response that has begun.
                 self.log.exception("Error handling request")
                 try:
                     client.shutdown(socket.SHUT_RDWR)
                     client.close()
                 except OSError:
                     pass
-                raise StopIteration()
+                if isinstance(e, Exception):
+                    raise StopIteration()
             raise
         finally:
             try:
